@@ -1,7 +1,10 @@
 package e5path
 
 import (
+	"go/ast"
+	"go/types"
 	"golang.org/x/tools/go/ssa"
+	"strings"
 
 	"verif/sa/internal/load"
 )
@@ -110,4 +113,152 @@ func (r *Resolver) Res(v ssa.Value) ssa.Value {
 		return v
 	}
 	return v
+}
+
+// LitInst is one instance of a struct literal in a function: the literal written in the function
+// itself, or the literal a constructor helper of the same package builds (one instance per call of the
+// helper, its parameters bound to that call's arguments).
+type LitInst struct {
+	Alloc  *ssa.Alloc
+	Fields map[string]ssa.Value // raw stored values (inside the helper for helper-made literals)
+	Env    map[*ssa.Parameter]ssa.Value
+	Site   *ssa.BasicBlock // block of the analysed function where the instance comes into being
+	Pos    ssa.Instruction // instruction to report (the literal or the helper call)
+}
+
+// Arg maps a helper parameter to the argument of this instance's call; other values are returned unchanged.
+func (l *LitInst) Arg(v ssa.Value) ssa.Value {
+	if prm, ok := v.(*ssa.Parameter); ok {
+		if a, ok := l.Env[prm]; ok {
+			return a
+		}
+	}
+	return v
+}
+
+func litFields(al *ssa.Alloc) map[string]ssa.Value {
+	out := map[string]ssa.Value{}
+	st, ok := al.Type().Underlying().(*types.Pointer).Elem().Underlying().(*types.Struct)
+	if !ok || al.Referrers() == nil {
+		return out
+	}
+	for _, ref := range *al.Referrers() {
+		fa, ok := ref.(*ssa.FieldAddr)
+		if !ok || fa.Referrers() == nil {
+			continue
+		}
+		for _, r2 := range *fa.Referrers() {
+			if s, ok := r2.(*ssa.Store); ok {
+				out[st.Field(fa.Field).Name()] = s.Val
+			}
+		}
+	}
+	return out
+}
+
+// LiteralInstances lists the instances of literals of the named struct type in fn.
+func LiteralInstances(fn *ssa.Function, structName string) []LitInst {
+	var out []LitInst
+	for _, b := range fn.Blocks {
+		for _, in := range b.Instrs {
+			switch x := in.(type) {
+			case *ssa.Alloc:
+				if structNameOf(x.Type()) == structName {
+					out = append(out, LitInst{Alloc: x, Fields: litFields(x), Site: b, Pos: x})
+				}
+			case *ssa.Call:
+				h := x.Common().StaticCallee()
+				if h == nil || h.Pkg != fn.Pkg || h == fn || len(h.Blocks) == 0 {
+					continue
+				}
+				var ret *ssa.Return
+				nret := 0
+				for _, hb := range h.Blocks {
+					if rt, ok := hb.Instrs[len(hb.Instrs)-1].(*ssa.Return); ok {
+						ret, nret = rt, nret+1
+					}
+				}
+				if nret != 1 || len(ret.Results) != 1 {
+					continue
+				}
+				al, ok := ret.Results[0].(*ssa.Alloc)
+				if !ok || structNameOf(al.Type()) != structName {
+					continue
+				}
+				env := map[*ssa.Parameter]ssa.Value{}
+				for i, prm := range h.Params {
+					if i < len(x.Common().Args) {
+						env[prm] = x.Common().Args[i]
+					}
+				}
+				out = append(out, LitInst{Alloc: al, Fields: litFields(al), Env: env, Site: b, Pos: x})
+			}
+		}
+	}
+	return out
+}
+
+// StoreInst is a store executed by fn: its own, or one inside a helper of its package that it calls
+// (the helper's parameters bound to the arguments of that call).
+type StoreInst struct {
+	St   *ssa.Store
+	Env  map[*ssa.Parameter]ssa.Value
+	Site *ssa.BasicBlock
+}
+
+// Arg maps a helper parameter to its argument.
+func (s *StoreInst) Arg(v ssa.Value) ssa.Value {
+	if prm, ok := v.(*ssa.Parameter); ok {
+		if a, ok := s.Env[prm]; ok {
+			return a
+		}
+	}
+	return v
+}
+
+// Path renders v with helper parameters replaced by the access paths of their arguments.
+func (s *StoreInst) Path(v ssa.Value) string {
+	p := AccessPath(v)
+	for prm, arg := range s.Env {
+		n := prm.Name()
+		if p == n {
+			return AccessPath(arg)
+		}
+		if strings.HasPrefix(p, n+".") || strings.HasPrefix(p, n+"[") {
+			return AccessPath(arg) + p[len(n):]
+		}
+	}
+	return p
+}
+
+// StoresWithHelpers lists the stores of fn and of the helpers (same package, one level) it calls.
+func StoresWithHelpers(fn *ssa.Function) []StoreInst {
+	var out []StoreInst
+	for _, b := range fn.Blocks {
+		for _, in := range b.Instrs {
+			switch x := in.(type) {
+			case *ssa.Store:
+				out = append(out, StoreInst{St: x, Site: b})
+			case ssa.CallInstruction:
+				h := x.Common().StaticCallee()
+				if h == nil || h.Pkg != fn.Pkg || h == fn || len(h.Blocks) == 0 || ast.IsExported(h.Name()) {
+					continue
+				}
+				env := map[*ssa.Parameter]ssa.Value{}
+				for i, prm := range h.Params {
+					if i < len(x.Common().Args) {
+						env[prm] = x.Common().Args[i]
+					}
+				}
+				for _, hb := range h.Blocks {
+					for _, hin := range hb.Instrs {
+						if st, ok := hin.(*ssa.Store); ok {
+							out = append(out, StoreInst{St: st, Env: env, Site: b})
+						}
+					}
+				}
+			}
+		}
+	}
+	return out
 }
